@@ -6,12 +6,15 @@ implementation by tools/harness/props/c06.py through real PDF files).  Specifica
 `PdfVerif.Spec.SimpleFont` (AGL section 2; last Differences assignment else base table; ToUnicode >
 encoding > `(cid:N)`; Widths > standard-14 metric > MissingWidth; x 1/1000 or x FontMatrix[0]).
 All theorems are parametric in the tables (glyph list, ENCODING rows, EncodingDB columns, metrics);
-`TablesOK` lists the table facts used, which the harness evaluates on the regenerated tables every run.
+`TablesOK` lists the table facts used; `tables_ok` proves them in the kernel for the tables regenerated
+from the Python source, and the `…_pdfminer` theorems are the instances for exactly the tables and the
+`EncodingDB` the driver runs.
 
 Only property theorems live here (helper lemmas: `Lemmas/SimpleFont.lean`, `Lemmas/Agl.lean`).
 -/
 import PdfVerif.Lemmas.SimpleFontBuild
 import PdfVerif.Lemmas.Agl
+import PdfVerif.Lemmas.SimpleFontInst
 
 namespace PdfVerif.Props.C06
 open PdfVerif PdfVerif.SimpleFont PdfVerif.SimpleFont.Spec
@@ -35,6 +38,27 @@ list names, `uniXXXX…`, `uXXXX`–`uXXXXXX`, components, suffixes - and every 
 theorem agl_grammar (gl : GlyphList) (hgl : GlyphListOK gl) (nm : Option Name)
     (hj : judgedName gl nm = true) : name2unicode gl nm = aglText gl nm :=
   name2unicode_eq_aglText hgl nm hj
+
+/-- The statement of the design: on every glyph name of the grammar (list names, `uniXXXX`+, `uXXXX`-`uXXXXXX`,
+underscore-joined components, suffix after the first period dropped) `name2unicode` returns the - non-empty -
+character string of the Adobe Glyph List algorithm. -/
+theorem agl_grammar_wellformed (gl : GlyphList) (hgl : GlyphListOK gl) (n : Name)
+    (hw : wellFormedName gl n = true) :
+    name2unicode gl (some n) = some (aglSpec gl n) ∧ aglSpec gl n ≠ [] := by
+  have hj := wellFormed_judged hgl n hw
+  have h := agl_grammar gl hgl (some n) hj
+  have hne : aglSpec gl n ≠ [] := by
+    unfold aglSpec
+    apply flatten_ne_nil_of_all _ (splitOn_ne_nil _ _)
+    apply List.all_eq_true.mpr
+    intro c hc
+    simp [wf_nonempty hgl (List.all_eq_true.mp hw c hc)]
+  refine ⟨?_, hne⟩
+  rw [h]
+  simp only [aglText]
+  cases ht : aglSpec gl n with
+  | nil => exact absurd ht hne
+  | cons a b => rfl
 
 /-! ## Encodings -/
 
@@ -239,6 +263,34 @@ theorem type3_scale (T : Tables) (fd : FontDict) (code : Int) (h3 : fd.isType3 =
       | nil => rfl
       | cons c r => cases r <;> simp [slookup]
 
+/-! ## The regenerated tables of pdfminer -/
+
+/-- The tables regenerated from glyphlist.py / latin_enc.py satisfy the table facts (kernel computation over
+the 4 281 glyph-list entries and the 232 ENCODING rows, `Lemmas/SimpleFontInst.lean`). -/
+theorem tables_ok : TablesOK Inst.tables :=
+  ⟨Inst.glyphs_ok, Inst.glyphs_emptyName, Inst.rows_resolve, Inst.rows_judged⟩
+
+/-- The font the driver (and the correspondence check) builds is `modelFont` on the regenerated tables. -/
+theorem modelFont_pdfminer (fd : FontDict) :
+    modelFont Inst.tables fd = build Inst.glyphs Inst.encDB Inst.metrics fd := rfl
+
+/-- `name2unicode` with pdfminer's glyph list is the AGL algorithm on every judged name. -/
+theorem agl_grammar_pdfminer (nm : Option Name) (hj : judgedName Inst.glyphs nm = true) :
+    name2unicode Inst.glyphs nm = aglText Inst.glyphs nm :=
+  agl_grammar Inst.glyphs Inst.glyphs_ok nm hj
+
+/-- Text precedence for pdfminer's own tables: no hypothesis about the tables is left. -/
+theorem C06_text_precedence_pdfminer (fd : FontDict) (code : Int)
+    (hj : judgedCode Inst.tables fd code = true) :
+    glyphText (build Inst.glyphs Inst.encDB Inst.metrics fd) code = specText Inst.tables fd code :=
+  C06_text_precedence Inst.tables tables_ok fd code hj
+
+/-- Width precedence for pdfminer's own tables. -/
+theorem C06_width_precedence_pdfminer (fd : FontDict) (code : Int)
+    (hj : judgedCode Inst.tables fd code = true) :
+    glyphAdv (build Inst.glyphs Inst.encDB Inst.metrics fd) code = specWidth Inst.tables fd code :=
+  C06_width_precedence Inst.tables tables_ok fd code hj
+
 /-! ## The excluded region is really excluded: pdfminer's deliberate deviations from AGL -/
 
 /-- The unrestricted statement: `name2unicode` is the AGL algorithm on EVERY name. -/
@@ -298,6 +350,13 @@ example : aglText gl0 (some ['A', '_', 'u', 'n', 'i', '0', '0', '4', '2', '.', '
 example : aglText gl0 (some ['u', 'n', 'i', 'D', '8', '0', '0']) = none := by decide
 example : aglText gl0 (some ['u', '1', '1', '0', '0', '0', '0']) = none := by decide
 
+-- names of the grammar are well formed (hypothesis of `agl_grammar_wellformed`), ill-formed ones are not
+example : wellFormedName gl0 ['A', '_', 'u', 'n', 'i', '0', '0', '4', '2', '.', 's', 'c'] = true := by decide
+example : wellFormedName gl0 ['u', '1', '0', '4', '0', 'C'] = true := by decide
+example : wellFormedName gl0 ['u', 'n', 'i'] = false := by decide
+example : wellFormedName gl0 ['u', 'n', 'i', 'D', '8', '0', '0'] = false := by decide
+example : wellFormedName gl0 ['A', '_', 'f', 'o', 'o'] = false := by decide
+
 -- every code of the example font is judged; the specification is not constant on it
 example : ∀ c ∈ [(32 : Int), 65, 66, 67], judgedCode T0 fd0 c = true := by decide +kernel
 example : specText T0 fd0 32 = [0x58] := by decide +kernel                      -- ToUnicode wins over the encoding
@@ -308,5 +367,10 @@ example : specWidth T0 fd0 66 = 500 / 1000 := by decide +kernel         -- Width
 example : specWidth T0 fd0 32 = 250 / 1000 := by decide +kernel         -- text is "X": no metric -> MissingWidth
 example : glyphText (modelFont T0 fd0) 66 = [65, 66] := by
   rw [C06_text_precedence T0 example_tables_ok fd0 66 (by decide +kernel)]; decide +kernel
+
+-- the instances for pdfminer's own tables are not vacuous either (the first glyph-list entry keeps the kernel
+-- lookup short; names deeper in the 4 281-entry list cost minutes of String -> List Char conversion)
+example : judgedName Inst.glyphs (some ['A']) = true := by decide +kernel
+example : aglText Inst.glyphs (some ['A']) = some [65] := by decide +kernel
 
 end PdfVerif.Props.C06
